@@ -1,5 +1,11 @@
 //! Contains zero pass builder of AVRA-rs
-use std::{cell::RefCell, collections::HashMap, path::PathBuf, rc::Rc, string::ToString};
+use std::{
+    cell::{Cell, RefCell},
+    collections::HashMap,
+    path::PathBuf,
+    rc::Rc,
+    string::ToString,
+};
 
 use crate::{
     context::CommonContext,
@@ -42,6 +48,8 @@ pub struct Pass0Context {
     pub macros: Rc<Macro>,
     // messages
     pub messages: Rc<RefCell<Vec<String>>>,
+    // macro calls expanded so far
+    pub expansions: Cell<usize>,
 }
 
 impl Pass0Context {
@@ -88,6 +96,7 @@ pub fn build_pass_0(
         segments: Rc::new(RefCell::new(vec![])),
         macros: Rc::new(Macro::new()),
         messages: Rc::new(RefCell::new(parsed.messages)),
+        expansions: Cell::new(0),
     };
 
     for segment in parsed.segments {
@@ -112,6 +121,9 @@ pub fn build_pass_0(
 /// Nesting limit of macro calls inside macro bodies
 const MAX_MACRO_DEPTH: usize = 64;
 
+/// Macro calls one build may expand: macros that each call the previous one twice double the output with every level
+const MAX_MACRO_EXPANSIONS: usize = 1 << 18;
+
 fn pass0_internal(
     segment: Segment,
     context: &Pass0Context,
@@ -129,12 +141,21 @@ fn pass0_internal(
                             line
                         );
                     }
+                    if context.expansions.get() >= MAX_MACRO_EXPANSIONS {
+                        bail!(
+                            "too many macro calls to expand (macros that call each other again and again?), {}",
+                            line
+                        );
+                    }
+                    context.expansions.set(context.expansions.get() + 1);
                     let segments = macro_expand(line, macro_name, ops, context, macroses)?;
                     if !segments.is_empty() {
-                        let current_segment = context.last_segment().unwrap().borrow().clone();
-                        if segments[0].address != current_segment.address
-                            || segments[0].t != current_segment.t
-                        {
+                        let (current_address, current_type) = {
+                            let current_segment = context.last_segment().unwrap();
+                            let current_segment = current_segment.borrow();
+                            (current_segment.address, current_segment.t)
+                        };
+                        if segments[0].address != current_address || segments[0].t != current_type {
                             context.add_segment(Segment {
                                 address: segments[0].address,
                                 t: segments[0].t,
